@@ -4,10 +4,10 @@ package main
 
 import (
 	"fmt"
-	"os"
-	"runtime"
 	"go/token"
 	"go/types"
+	"os"
+	"runtime"
 	"sort"
 	"strings"
 
@@ -1223,7 +1223,6 @@ func (fx *FnExec) modifiesEffect(x *CExpr, argOf map[string]ssa.Value, li *loopI
 	}
 	out["*"] = true
 }
-
 
 // globalFuncKey: a call through a package-level function variable (e.g. thunks.TimeNow) is keyed pkg.Var.
 func globalFuncKey(cc *ssa.CallCommon) string {
